@@ -50,6 +50,7 @@ var c20Neigh = map[string]c20Pt{
 var c20Pos = map[string]c20Pt{
 	"T":   {0, 0},
 	"T2":  {0, -mToDeg(200)},
+	"T3":  {0, mToDeg(1500)}, // a jump of 1.5 radii: the old and the new circle still overlap
 	"Far": {0, mToDeg(10000)},
 }
 
@@ -98,7 +99,7 @@ func checkC20(job *Job, res *Result) {
 		if len(cur) == maxMoves {
 			return
 		}
-		for _, p := range []string{"T", "T2", "Far", "T+drop-readd", "T2+rename-cycle", "T+swap"} {
+		for _, p := range []string{"T", "T2", "T3", "Far", "T+drop-readd", "T2+rename-cycle", "T+swap"} {
 			if strings.Contains(p, "+") && len(cur) == 0 {
 				continue // collection events only after the fence has fired once
 			}
